@@ -128,12 +128,12 @@ CLAIMS['C13'] = {
     'note': 'NOT decided: that each ECDH encryption makes a new ephemeral key (generation is a C call inside the stubbed public-key operation); quality of the OS source; randomness during key generation.'}
 CLAIMS['C14'] = {
     'technique': 'bounded symbolic exploration of packet-sequence shapes through the real key parser / exporter against a reference grouping function (CrossHair+z3 forking on symbolic menu indices)',
-    'text': 'A transferable key is assembled from a 17-element packet menu (user ids incl. a non-UTF-8 one, attribute, subkeys, trust packet, nine signatures with exportable absent/1/0, equal/differing times, a sensitive designated revoker and one by an unknown algorithm, a second primary) by symbolic indices; after the real from_blob every signature must sit on the component that precedes it, '
+    'text': 'A transferable key is assembled from a 19-element packet menu (user ids incl. a non-UTF-8 one, attribute, subkeys, trust packet, nine signatures with exportable absent/1/0, equal/differing times, a sensitive designated revoker and one by an unknown algorithm, a second primary) by symbolic indices; after the real from_blob every signature must sit on the component that precedes it, '
             'trust packets be ignored and the second primary be split off; the export must omit exactly the non-exportable signatures, re-import to the same structure, be stable, and equal the export of a copy. Sequences of 1..3 (quick) / 4 (thorough) packets, exhaustively per partition.',
     'note': 'Packet contents are concrete: this is solver-driven exploration of shapes, and the evidence says so. "Still verifying" is C01/C15. Three genuine defects repaired (stable ordering of equal-time signatures; copies of non-UTF-8 user ids; signatures by an unknown algorithm lost their integers on import).'}
 CLAIMS['C15'] = {
     'technique': 'bounded symbolic exploration of key-management histories on the real PGPKey API with a remembering signature oracle (CrossHair+z3 forking on symbolic operation indices)',
-    'text': 'A fresh key is taken through 1..2 (quick) / 3 (thorough) steps chosen by symbolic indices from 11 operations (add identity / image / signing subkey / encryption subkey, re-certify with new preferences, third-party certify, revoke identity / subkey / key, remove identity or add revoker, export+import, take and keep the public twin), optionally in the same second; '
+    'text': 'A fresh key is taken through 1..3 (quick) / up to 5 (thorough) steps chosen by symbolic indices from 11 operations (add identity / image / signing subkey / encryption subkey, re-certify with new preferences, third-party certify, revoke identity / subkey / key, remove identity or add revoker, export+import, take and keep the public twin), optionally in the same second; '
             'afterwards, on the private key, its public twin, a re-imported export and a copy, every self-signature, binding and revocation must verify under the public half (the octets hashed at verification equal those hashed at signing), and identities, subkeys, revocations, effective flags and primary mark must be those of a reference model.',
     'note': 'Contents concrete, histories short; protect/unlock are in C06. Exploration of operation sequences, not of data.'}
 CLAIMS['C16'] = {
@@ -147,4 +147,28 @@ CLAIMS['C18'] = {
             'identical for the secret packet (unprotected, or protected with every S2K form: O18.3), the public packet derived from it, copies and re-imported exports; Fingerprint key id / short id / space and case normalisation are decided on spaced forms with symbolic space positions; '
             'O18.4: with the digest value chosen by symbolic index from 7 adversarial 160-bit values, the issuer, issuer-fingerprint, one-pass and recipient key-id fields PGPy writes are that value / its low 64 bits octet for octet (recipient: the encryption subkey).',
     'note': 'The creation-time clause is decided only on 4 zones x 6 boundary instants chosen by symbolic index (O18.1-tz; the time codec is C code, symbolic datetimes do not terminate); SHA-1 itself is not studied. One genuine defect repaired (zone-aware creation times written as wall-clock fields).'}
+
+# ---- obligations added after the third round of seeded changes (DESIGN.md 9.4); menus run natively per path (native(), DESIGN.md 9.2)
+EXTRA = {
+ 'C01': 'O1.5: either algorithm octet of an accepted signature replaced by any of the 256 values never verifies truthy. O1.1-uidpkt: certifications over user-id PACKETS given by raw octets (Latin-1 vs UTF-8, NFC vs NFD, invalid UTF-8) verify only for the identical octets.',
+ 'C02': 'O2.5 also covers a copy of the re-imported signature; O2.6: a certification still hashes to the signed octets after the user id packet travelled as octets, for names in any Unicode normalisation form.',
+ 'C03': 'O3.7: tag-9 (no MDC) data behind a public-key or passphrase session key from another producer decrypts to exactly its literal content. The public-key stand-in only decrypts an intact ciphertext object.',
+ 'C04': 'O4.1b: the verdict on a packet object does not depend on earlier attempts on it (decrypt twice). O4.7: strings with lone surrogates never act as another passphrase.',
+ 'C05': 'O5.4: using a key (sign / certify / encrypt / capability query) leaves every received region, the public twin and the export unchanged, for all 256 key-flags octets.',
+ 'C06': 'O6.6b: text passphrases enter the real key derivation as their UTF-8 octets. O6.7: a foreign protected key exports its imported octets again after unlock and re-lock (usage 254 / 255).',
+ 'C07': 'O7.1-tz: the derived public packet carries the same creation instant for zone-aware non-UTC and naive creation times. O7.2 also compares the exportable signature packets of private and public export octet for octet, incl. a key as another producer encoded it.',
+ 'C09': 'O9.8: key creation time, literal modification time and the creation-time subpacket serialise the Unix time for 10 boundary instants x 6 zones and parse back. O9.9: a subpacket of a parsed signature grown or shrunk across a length-width boundary leaves every length field exact after one update_hlen().',
+ 'C10': 'O10.5 now includes armor header sets (also values containing ": " and CRLF input); O10.6: foreign line widths {64,76,75,60,33,2,1} and CRC lines {correct, =AAAA, one bit off}. Two genuine defects repaired (header parsing).',
+ 'C11': 'O11.1-long: 0..12 lines. O11.3 runs natively (texts of 0..4 / 5 characters). O11.3k: witness of the open finding KF-C11-non-ascii-readback.',
+ 'C13': 'Draws are matched to their uses in any order (drawn_fresh). O13.1b: every passphrase of a multi-passphrase message gets its own new salt. O13.3b: a key loaded with Simple S2K is re-protected with a salted specifier and new draws.',
+ 'C14': 'Menu of 19 packets (adds a certification with a non-minimal hashed subpacket length and a non-exportable revocation). O14.2: signature by an unknown algorithm between any two menu packets.',
+ 'C15': 'Histories of 1..3 (quick) / up to 5 (thorough) steps; two primary-marked identities; the identity order is the same on every view.',
+ 'C16': 'O16.1 covers the full 7^3 / 7^4 product and checks that the capabilities reported after the operation are unchanged. O16.6: a later certification by another key carrying key flags - also with its unhashed issuer id overwritten - never decides capabilities.',
+ 'C17': 'O17.5: the real expiry test (no stand-ins, real Ed25519) for key ages around the process-zone offset. O17.6: real RSA: over-long, bit-flipped and incremented signature integers are bad.',
+ 'C18': 'O18.1-opaque: keys of an algorithm without a class. O18.4 includes a signing subkey a certify-only primary delegates to (both issuer fields name the subkey). O18.1-tz includes naive creation times under a non-UTC process zone. Two genuine defects repaired.',
+ 'C19': 'O19.3: real keys loaded from octets and armor, both halves in separate blobs or in one blob, a second key sharing the identity; fingerprints(keyhalf) and every alias after every step of 1..3 (quick) / 4 (thorough) step histories.',
+ 'C20': 'O20.2 covers the format markers b, t, u, l, 1, m.',
+}
+for _k, _v in EXTRA.items():
+    CLAIMS[_k]['text'] = CLAIMS[_k]['text'] + ' ' + _v
 NOT_APPLICABLE = {p: NB for p in ['C%02d' % i for i in range(1, 21)] if p not in CLAIMS}
